@@ -21,13 +21,13 @@ import (
 )
 
 func (dec *Decoder) readUnsafeBytes() []byte {
-	bytes := dec.UnsafeNext(dec.ReadInt())
+	bytes := dec.UnsafeNext(dec.readCount())
 	dec.Skip()
 	return bytes
 }
 
 func (dec *Decoder) readBytes() []byte {
-	bytes := dec.Next(dec.ReadInt())
+	bytes := dec.Next(dec.readCount())
 	dec.Skip()
 	return bytes
 }
@@ -42,11 +42,18 @@ func (dec *Decoder) ReadBytes() []byte {
 }
 
 func (dec *Decoder) readUint8Slice(et reflect.Type) []byte {
-	count := dec.ReadInt()
-	slice := make([]byte, count)
+	count := dec.readCount()
+	slice := make([]byte, 0, prealloc(count))
+	// the list takes its reference slot before its elements
+	index := len(dec.refer.ref)
 	dec.AddReference(slice)
-	for i := 0; i < count; i++ {
-		dec.decodeUint8(et, dec.NextByte(), &slice[i])
+	for i := 0; i < count && dec.Error == nil; i++ {
+		var b byte
+		dec.decodeUint8(et, dec.NextByte(), &b)
+		slice = append(slice, b)
+	}
+	if !dec.IsSimple() {
+		dec.refer.Set(index, slice)
 	}
 	dec.Skip()
 	return slice
